@@ -14,10 +14,10 @@ CFG = dict(
                "derivation); keccak/BLS/RSA themselves, gob/JSON codecs and Badger are not modelled. The guard ORDER among the checks after the nonce bump is tied by call-site "
                "facts only (every such failure has the same observable effect).",
     technique="Lean 4 proof (invariants by induction over runs, simulation against a batching-free reference run) + regenerated constants/call-site facts + "
-              "differential run of the real EventHandler against the Lean model + implementation-side oracles (two batchings, restart, memory vs database)",
+              "differential run of the real EventHandler against the Lean model + implementation-side oracles (two batchings, restart, memory vs database, nonce count, valid add is registered, stored committee pairs ids and share keys as emitted)",
     lean=["Ssv.Props.C11"],
     engines=[dict(harness="registry", driver="m_registry", args=["-mode", "c11"], case_delim="reset",
-                  n_quick=150, n_thorough=3000, thorough_seeds=2, n_search=400, search_seeds=3)],
+                  n_quick=120, n_thorough=3000, thorough_seeds=2, n_search=400, search_seeds=3)],
     rule="seeded generator of event histories (OperatorAdded/Removed, ValidatorAdded/Removed/Exited, ClusterLiquidated/Reactivated, FeeRecipientUpdated, unparsable, unknown "
          "topic, no topics; ValidatorAdded in 14 single-fact malformed variants; committees of 4/7/10/13; own operator in/out of the committee; nonce near the uint16 wrap; "
          "metadata / decided history / restarts between blocks; inferior blocks), each history run under two independently drawn batchings on the real handler and on the "
